@@ -66,6 +66,10 @@ Example C09_nonvacuous :
   let b2 := fst (push p b1 [x04; x05; x06]) in
   visible p (fst (remove p b2 0)) = Ok [[x04; x05; x06]] /\ is_err (snd (push p (fst (push p b2 [x07;x08;x09])) [x00;x00;x00])) = true.
 Proof. cbv zeta. split; vm_compute; reflexivity. Qed.
+(** bytes_used / bytes_allocated report the layout formula at the length / the capacity *)
+Theorem C09_bytes_used_allocated : forall p buf cap xs pad rest, Rep p buf cap xs pad rest ->
+  bytes_used p buf = size_of p (len xs) /\ bytes_allocated p buf = size_of p cap.
+Proof. exact bytes_used_allocated. Qed.
 Example C09_prefix_boundary_D2 :
   let p := {| szL := 2; szT := 1; alT := 1; base := 0 |} in
   let buf := le_enc 2 65535 ++ zeros (N.to_nat 65536) in
